@@ -194,7 +194,7 @@ void vprop_case (VChoices *c, VResult *r)
         orc_program_free (p2);
         if (ok) agree++;
       }
-      if (agree == 3 && !ps.has_float) {
+      if (agree == 3) {       /* (float programs too: the three other builds were compared with emulation bit for bit) */
         v_desc (r, "# gcc %s disagrees with emulation (%s) but gcc -O0, clang -O2 and a UBSan build of the same source agree with it: compiler, not source\n", opts[opt], msg);
         r->classes |= 1u << 19;
         msg[0] = 0;
